@@ -729,8 +729,19 @@ def make_runner_class():
             ev.set = set_
 
         # -- OS-facing primitives -------------------------------------------
+        def should_use_pty(self, pty=False, fallback=True):
+            # optional (C02, case key "stdin"): decide as Local does -- the REAL Local.should_use_pty, which
+            # looks at sys.stdin (run_scripted puts a stand-in there); the one-off warning counts as given
+            if not getattr(self, "_verif_local_pty_rule", False):
+                return super().should_use_pty(pty, fallback)
+            self.warned_about_pty_fallback = True
+            return R.Local.should_use_pty(self, pty, fallback)
+
         def start(self, command, shell, env):
             e = self._verif_env
+            if getattr(self, "_verif_local_pty_rule", False):
+                # the child is reaped by us only when a pty is really in effect
+                e.reap_echild = bool(e.reap_echild and self.using_pty)
             if self._start_error:
                 import builtins
                 raise getattr(builtins, self._start_error)(2, "scripted start failure")
@@ -872,6 +883,41 @@ HIDE = {"none": None, "false": False, "true": True, "out": "out", "stdout": "std
         "err": "err", "stderr": "stderr", "both": "both"}
 
 
+class _StdinFile:
+    """stand-in for sys.stdin backed by a descriptor (never read: the runs that use it pass in_stream)"""
+
+    def fileno(self):
+        return 0
+
+    def isatty(self):
+        return False
+
+    def read(self, n=-1):
+        return ""
+
+
+class _StdinNoFileno(_StdinFile):
+    """a legal sys.stdin replacement that is not backed by a descriptor (StringIO-like)"""
+
+    def fileno(self):
+        import io
+        raise io.UnsupportedOperation("fileno")
+
+
+class _StdinNoAttr:
+    """a sys.stdin replacement without a fileno method at all"""
+
+    def isatty(self):
+        return False
+
+    def read(self, n=-1):
+        return ""
+
+
+def stdin_stand_in(kind):
+    return {"file": _StdinFile, "nofileno": _StdinNoFileno, "noattr": _StdinNoAttr}[kind]()
+
+
 def run_scripted(case, in_stream=None, input_sleep=None):
     """Run one scripted case through the real Runner.  Returns the full
     observation dict; plug-ins pick what their property talks about.
@@ -943,6 +989,14 @@ def run_scripted(case, in_stream=None, input_sleep=None):
         kwargs["timeout"] = case["timeout"]
     if input_sleep is not None:
         runner.input_sleep = input_sleep
+    # optional (C02): "stdin" = what sys.stdin is during the run ("file": has a fileno; "nofileno": fileno()
+    # raises io.UnsupportedOperation; "noattr": no such method) -- the scripted runner then decides
+    # pty-or-pipes the way Local does; "fallback" = the run(fallback=...) keyword (absent: not passed)
+    stdin_kind = case.get("stdin")
+    if stdin_kind is not None:
+        runner._verif_local_pty_rule = True
+        if case.get("fallback") is not None:
+            kwargs["fallback"] = bool(case["fallback"])
 
     box = {}
 
@@ -961,10 +1015,13 @@ def run_scripted(case, in_stream=None, input_sleep=None):
                 env.cv.notify_all()
 
     saved = sys.stdout, sys.stderr
+    saved_stdin = sys.stdin
     sys.stdout, sys.stderr = sys_out, sys_err
     t = threading.Thread(target=call, daemon=True)
     t0 = time.time()
     try:
+        if stdin_kind is not None:
+            sys.stdin = stdin_stand_in(stdin_kind)
         t.start()
         t.join(Limits.run)
         hung = t.is_alive()
@@ -978,6 +1035,7 @@ def run_scripted(case, in_stream=None, input_sleep=None):
             t.join(1.5)
     finally:
         sys.stdout, sys.stderr = saved
+        sys.stdin = saved_stdin
     elapsed = time.time() - t0
     # resources, as left behind by run()/join()
     workers = dict((tg.__name__, th) for tg, th in (getattr(runner, "threads", None) or {}).items())
